@@ -419,6 +419,15 @@ func (b *builder) body(fn *ssa.Function) {
 				if op == nil || *op == nil {
 					continue
 				}
+				if gl, ok := (*op).(*ssa.Global); ok && gl.Pkg != nil {
+					if pk := gl.Pkg.Pkg.Path(); pk == "crypto/rand" || pk == "math/rand" || pk == "math/rand/v2" {
+						id, fresh := b.g.node("var:" + pk + "." + gl.Name())
+						if fresh {
+							b.g.Pkg[id-1] = pk
+						}
+						b.edge(me, id, ins.Pos())
+					}
+				}
 				var g *ssa.Function
 				switch v := (*op).(type) {
 				case *ssa.Function:
